@@ -175,6 +175,13 @@ def _fitted_diff(case, a, b):
     return None
 
 
+def _repro_sig(case, sig):
+    """Reproducibility oracles (3, 4) on a case whose ARPACK factorisation is not unique get one call-site signature."""
+    if getattr(case, "arpack_degenerate", False):
+        return f"C13|{case.cls.__name__}|not-reproducible|arpack-degenerate-spectrum"
+    return sig
+
+
 def _draw_batches(tape, case):
     n = len(case.pool)
     batches = [list(case.train_ids)]
@@ -360,12 +367,12 @@ def _history(tape, ctx, case, rig, probes, faults, allow_cancel):
             if not (fault and fired):
                 d = _fitted_diff(case, primary, twin)
                 if d:
-                    raise Violation(f"C13|{tag}|same-seed-different-model",
+                    raise Violation(_repro_sig(case, f"C13|{tag}|same-seed-different-model"),
                                     f"two {method} calls with identical parameters and data (global numpy RNG seeded differently) "
                                     f"disagree: {d}", desc)
                 if method == "fit_transform" and case.has_transform is not None:
                     if not A.same(pval, tval, max(case.tol, 1e-9)):
-                        raise Violation(f"C13|{tag}|same-seed-different-output|fit_transform",
+                        raise Violation(_repro_sig(case, f"C13|{tag}|same-seed-different-output|fit_transform"),
                                         f"fit_transform outputs of two identical fits differ: {A.describe_diff(pval, tval)}", desc)
                 probes.hit("same-model-checked")
                 note_model(f"fit{opi}", {k: v for k, v in sorted(case.fitted_state(primary).items())
@@ -387,7 +394,7 @@ def _history(tape, ctx, case, rig, probes, faults, allow_cancel):
                                 f"pristine twin {fit_method} raised {type(tval).__name__}: {tval} although the primary's identical fit returned", desc)
             d = _fitted_diff(case, primary, twin) if not memo and not any(o.get("fired") for o in ops_log) else None
             if d:
-                raise Violation(f"C13|{tag}|transform-changed-fitted-state-or-same-seed-different-model",
+                raise Violation(_repro_sig(case, f"C13|{tag}|transform-changed-fitted-state-or-same-seed-different-model"),
                                 f"fitted attributes of the primary differ from a fresh identical fit: {d}", desc)
             X, kw = case.build(ids)
             case._n_for_call = len(ids)
@@ -413,7 +420,7 @@ def _history(tape, ctx, case, rig, probes, faults, allow_cancel):
             if mst == "ok":
                 if not A.same(pval, mval, max(case.tol, 1e-9)):
                     sfx = "|after-fault" if any(o.get("fired") for o in ops_log) else ""
-                    raise Violation(f"C13|{tag}|transform-differs-from-single-call{sfx}",
+                    raise Violation(_repro_sig(case, f"C13|{tag}|transform-differs-from-single-call{sfx}"),
                                     f"transform of batch B{b} at step {opi} of the history {[o['op'] for o in ops_log]} differs from a pristine "
                                     f"twin's single call: {A.describe_diff(pval, mval)}", desc)
                 probes.hit("memo-compared")
